@@ -4,7 +4,9 @@ import (
 	"bytes"
 	"context"
 	"encoding/json"
+	"errors"
 	"fmt"
+	"io"
 	"os"
 	"os/exec"
 	"path/filepath"
@@ -284,10 +286,21 @@ func checkC13History(raw json.RawMessage) (ev.Result, error) {
 		_ = append(first, bpf.RetConstant{Val: 0xdeadffff})
 		first = append([]bpf.Instruction(nil), firstCopy...)
 	}
+	dump0, dumpErr0 := dumpText(sp)
 	for k := 1; k < c.K; k++ {
-		for _, o := range c.Others {
+		for oi, o := range c.Others {
 			osp := o.ToSeccomp()
 			assembleAny(osp)
+			// ... and printed, also into writers that fail or accept only part of the text
+			func() {
+				defer func() { recover() }()
+				osp.Dump(&failingWriter{after: []int{0, 1, 17, 100, 1000}[(k+oi)%5], short: (k+oi)%2 == 0})
+				osp.Dump(devNull{})
+			}()
+		}
+		if d, derr := dumpText(sp); d != dump0 || (derr != nil) != (dumpErr0 != nil) {
+			return ev.Result{}, fmt.Errorf("Dump of the same policy value gives another text on call %d (%d bytes, error %v) than on the first (%d bytes, error %v), after other policies were compiled and printed in between (some into failing writers):\n%s\n--- first:\n%s",
+				k+1, len(d), derr, len(dump0), dumpErr0, clip(d, 600), clip(dump0, 600))
 		}
 		again, aerr, pan := assembleAny(sp)
 		if pan != nil {
@@ -829,4 +842,39 @@ func TestC13OtherProcesses(t *testing.T) {
 			return
 		}
 	}
+}
+
+// dumpText is the listing Policy.Dump prints.
+func dumpText(p *seccomp.Policy) (text string, err error) {
+	defer func() {
+		if x := recover(); x != nil {
+			err = fmt.Errorf("panic: %v", x)
+		}
+	}()
+	var b bytes.Buffer
+	err = p.Dump(&b)
+	return b.String(), err
+}
+
+// failingWriter accepts `after` bytes; then it fails, or (short) reports fewer bytes written than it was given.
+type failingWriter struct {
+	after int
+	short bool
+	n     int
+}
+
+func (w *failingWriter) Write(p []byte) (int, error) {
+	if w.n+len(p) <= w.after {
+		w.n += len(p)
+		return len(p), nil
+	}
+	k := w.after - w.n
+	if k < 0 {
+		k = 0
+	}
+	w.n += k
+	if w.short {
+		return k, io.ErrShortWrite
+	}
+	return k, errors.New("write failed")
 }
